@@ -22,7 +22,7 @@ func urlCorpus(rng *rand.Rand, n int) []string {
 	schemes := []string{"http", "https", "mailto", "javascript", "JAVASCRIPT", "data", "ftp", "vbscript", "tel", "x-y", "1a", "a+b.c-d", "", "ht tp"}
 	pre := []string{"", " ", "\t", "\n", "\x00", "\x01", "\x1f", " ", "　", "\ufeff", "\r\n"}
 	mid := []string{"", "\t", "\n", "\r", " ", "%0a", "\x00", "&#9;"}
-	rest := []string{"//example.org/p?q#f", "alert(1)", "//h", "", "/", "a@b", "text/html,x", "image/png;base64,AAAA", "image/gif;base64,AA A=", "//[::1]:80/", "//u:p@h:8/", "\\\\h\\p", "//h/%41%zz", "?x", "#y", "//exa mple.org/", "//xn--nxasmq6b/", "//h/\x7f"}
+	rest := []string{"//example.org/p?q#f", "alert(1)", "//h", "", "/", "a@b", "text/html,x", "image/png;base64,AAAA", "image/gif;base64,AA A=", "//[::1]:80/", "//u:p@h:8/", "\\\\h\\p", "//h/%41%zz", "?x", "#y", "//exa mple.org/", "//xn--nxasmq6b/", "//h/\x7f", "//h/ftp", "alert('ftp')//x-y", "//evil.example/-y", "ftp"}
 	for i := 0; i < n; i++ {
 		sc := pick(rng, schemes)
 		if len(sc) > 1 && rng.Intn(3) == 0 {
@@ -50,6 +50,8 @@ func urlPolicies2() []*PolicySpec {
 		mk("u-off", Op{Kind: "schemes", Names: []string{"http"}}, Op{Kind: "parseable", B: false}),
 		mk("u-data", Op{Kind: "schemes", Names: []string{"data", "http"}}, Op{Kind: "relative", B: false}),
 		mk("u-overwrite", Op{Kind: "schemecustom", Scheme: "http", CB: "never"}, Op{Kind: "schemes", Names: []string{"http"}}),
+		// scheme patterns that are not anchored: they must be judged on the scheme alone, not on the whole URL
+		mk("u-regex-unanchored", Op{Kind: "schemesmatching", Re: `ftp`}, Op{Kind: "schemesmatching", Re: `-y$`}, Op{Kind: "relative", B: false}),
 	}
 }
 
